@@ -41,6 +41,7 @@ type Fault struct {
 	Mute                  bool // accepts, never answers (timeouts elapse on the virtual clock)
 	WriteBudget           int  // >0: the node's side of every connection dies after writing this many bytes
 	ErrorOnCreateIterator bool // answers CreateIterator with an error reply (store wrapper)
+	ErrorOnMetadata       bool // answers tag key / tag value / measurement name / field lookups with an error reply
 }
 
 // Cluster is a set of nodes sharing metadata.
@@ -192,6 +193,36 @@ func (s nodeStore) ShardGroup(ids []uint64) tsdb.ShardGroup {
 		return failingGroup{g}
 	}
 	return g
+}
+
+func (s nodeStore) metaFault() error {
+	s.n.cluster.mu.Lock()
+	defer s.n.cluster.mu.Unlock()
+	if s.n.Fault.ErrorOnMetadata {
+		return errors.New("injected: index unavailable")
+	}
+	return nil
+}
+
+func (s nodeStore) TagKeys(ctx context.Context, auth query.FineAuthorizer, shardIDs []uint64, cond influxql.Expr) ([]tsdb.TagKeys, error) {
+	if err := s.metaFault(); err != nil {
+		return nil, err
+	}
+	return s.Store.TagKeys(ctx, auth, shardIDs, cond)
+}
+
+func (s nodeStore) TagValues(ctx context.Context, auth query.FineAuthorizer, shardIDs []uint64, cond influxql.Expr) ([]tsdb.TagValues, error) {
+	if err := s.metaFault(); err != nil {
+		return nil, err
+	}
+	return s.Store.TagValues(ctx, auth, shardIDs, cond)
+}
+
+func (s nodeStore) MeasurementNames(ctx context.Context, auth query.FineAuthorizer, database string, retentionPolicy string, cond influxql.Expr) ([][]byte, error) {
+	if err := s.metaFault(); err != nil {
+		return nil, err
+	}
+	return s.Store.MeasurementNames(ctx, auth, database, retentionPolicy, cond)
 }
 
 // budgetConn lets only a number of bytes out of the node.
@@ -411,6 +442,79 @@ func (c *Cluster) EachEngine(f func(node *Node, shardID uint64, e *tsm1.Engine))
 // Query runs a SELECT on the coordinating node and renders the rows.
 func (c *Cluster) Query(coord int, q string) (string, error) {
 	return QueryMapper(c.Nodes[coord].Mapper, q)
+}
+
+// Lookup runs a fan-out request that is not a SELECT on the coordinating node
+// and renders the answer: "tag-keys", "tag-values", "measurements" (the calls
+// SHOW TAG KEYS / SHOW TAG VALUES / SHOW MEASUREMENTS make on the cluster
+// store), "field-keys" (FieldDimensions of the mapped shards, as SHOW FIELD
+// KEYS and every SELECT do) and "cost" (IteratorCost, as EXPLAIN does).
+func (c *Cluster) Lookup(coord int, kind string) (string, error) {
+	n := c.Nodes[coord]
+	cs := coordinator.ClusterTSDBStore{Store: n.Store, MetaExecutor: n.ME}
+	ctx := context.Background()
+	var shardIDs []uint64
+	c.mu.Lock()
+	rpi, _ := c.Data.RetentionPolicy(DB, RP)
+	for _, g := range rpi.ShardGroups {
+		for _, sh := range g.Shards {
+			shardIDs = append(shardIDs, sh.ID)
+		}
+	}
+	c.mu.Unlock()
+	switch kind {
+	case "tag-keys":
+		r, err := cs.TagKeys(ctx, nil, shardIDs, nil)
+		var out []string
+		for _, tk := range r {
+			out = append(out, fmt.Sprintf("%s:%v", tk.Measurement, tk.Keys))
+		}
+		return strings.Join(out, " "), err
+	case "tag-values":
+		cond, err := influxql.ParseExpr("_tagKey = 'host'")
+		if err != nil {
+			return "", err
+		}
+		r, err := cs.TagValues(ctx, nil, shardIDs, cond)
+		var out []string
+		for _, tv := range r {
+			out = append(out, fmt.Sprintf("%s:%v", tv.Measurement, tv.Values))
+		}
+		return strings.Join(out, " "), err
+	case "measurements":
+		r, err := cs.MeasurementNames(ctx, nil, DB, "", nil)
+		var out []string
+		for _, m := range r {
+			out = append(out, string(m))
+		}
+		return strings.Join(out, " "), err
+	case "field-keys", "cost":
+		m := &influxql.Measurement{Database: DB, RetentionPolicy: RP, Name: "cpu"}
+		sg, err := n.Mapper.MapShards(influxql.Sources{m}, influxql.TimeRange{}, query.SelectOptions{})
+		if err != nil {
+			return "", err
+		}
+		defer sg.Close()
+		if kind == "field-keys" {
+			f, d, err := sg.FieldDimensions(m)
+			var fs, ds []string
+			for k, t := range f {
+				fs = append(fs, k+":"+t.String())
+			}
+			for k := range d {
+				ds = append(ds, k)
+			}
+			sort.Strings(fs)
+			sort.Strings(ds)
+			return fmt.Sprintf("fields=%v dimensions=%v", fs, ds), err
+		}
+		opt := query.IteratorOptions{Expr: influxql.MustParseExpr("v"), StartTime: influxql.MinTime, EndTime: influxql.MaxTime, Ascending: true}
+		_, err = sg.IteratorCost(m, opt)
+		// the figures (shards, series, cached values, blocks) are per-shard estimates that depend on
+		// placement and on cache versus files by design: only success / failure is observed
+		return "estimated", err
+	}
+	return "", fmt.Errorf("unknown lookup %q", kind)
 }
 
 // Row is one result series of a SELECT.
